@@ -120,6 +120,7 @@ def run(ctx):
     ctx.rule("R6.codec-pairing", "compress exactly once on each writer's success path; decompress exactly once on get's success path; the reused per-thread codec state is reset unconditionally before every use", floor=5)
     segmentation_rule(ctx, prog)
     codec_state_rule(ctx, prog)
+    inflate_truncation_rule(ctx, prog)
     only_temp_written(ctx, prog)
 
     local = [b for b in prog.bodies if b.key.startswith("cbh_storage::local::") or "cbh_storage::local::LocalStorage as" in b.key]
@@ -714,6 +715,31 @@ def codec_state_rule(ctx, prog):
         ok = pc == (1, 1) and uncond and before and same
         ctx.ob("R6.codec-pairing", f"{fn.split('::')[-1]}.reset-before-use", ok, b.loc(),
                f"{reset}() on the per-thread state: per path {pc}, unconditional {uncond}, dominates every {work}() {before}, same state object {same}")
+
+
+def inflate_truncation_rule(ctx, prog):
+    """run_inflate may declare the body truncated only from what a decoding pass did: the decoder can hold finished output it
+    could not deliver yet (full output window) after having taken ALL input, so 'no input left' alone proves nothing. Every
+    error this function originates (Error::new in its own body, not the conversion of a decoder error) must (i) come after
+    the pass's `decompress` call and (ii) be decided by the pass's output progress (`total_out`)."""
+    b = prog.one("codec::run_inflate")
+    if b is None:
+        return
+    ws = [bb for bb, t in b.calls() if t["callee"].get("method") in ("decompress", "decompress_vec") and "flate2" in callee_key(t["callee"])]
+    errs = [(bb, t) for bb, t in b.calls() if not b.blocks[bb].cleanup and callee_key(t["callee"]).endswith("io::Error::new")
+            or (not b.blocks[bb].cleanup and callee_key(t["callee"]).endswith("io::error::Error::new"))]
+    dom = b.dominators(unwind=False)
+    for i, (bb, t) in enumerate(errs):
+        after = bool(ws) and any(w in dom[bb] for w in ws)
+        by_output = False
+        for g in switch_guards(b, bb, dom=dom):
+            sl = Slice(b).run(b.blocks[g["bb"]].term["discr"])
+            if any(k.endswith("total_out") for k, _b, _t in sl["calls"]):
+                by_output = True
+        ok = after and by_output
+        ctx.ob("R6.codec-pairing", f"run_inflate.truncation-error#{i}", ok, b.loc(t["span"]),
+               f"error originated after this pass's decompress(): {after}; decided by the pass's output progress (total_out): {by_output}" +
+               ("" if ok else " - a complete body whose last pass filled the output window exactly has no input left while output is still pending: it is reported as truncated and the stored object can never be read back"))
 
 
 def only_temp_written(ctx, prog):
